@@ -10,12 +10,14 @@ From GQL Require Import Conc.CancelLts Proofs.ConcCancel.
 Import ListNotations.
 
 (* Two outcomes: whatever the schedule, a returned call carries either {no data, ctx.Err()} - and
-   then Done had fired - or the complete response: assembled from the outcomes of all n resolvers
-   (never a partially filled tree, no outcome missing), or the coercion error when coercion failed. *)
+   then Done had fired - or the complete normal response: its data assembled from the outcomes of
+   all n resolvers (never a partially filled tree) and its error list holding one error for every
+   resolver that failed, in order, none missing and none extra (errs = errors_of outs), or the
+   coercion error when coercion failed. *)
 Theorem C16_two_outcomes : forall n cap s r, reach n cap s -> cp s = CReturned r ->
   match r with
   | RetCtx => done s = true
-  | RetResp (RespFull outs) => length outs = n /\ outs = gates s /\ vgate s = Some true
+  | RetResp (RespFull outs e) => length outs = n /\ outs = gates s /\ vgate s = Some true /\ e = errors_of outs
   | RetResp RespVarErr => vgate s = Some false
   end.
 Proof. exact two_outcomes. Qed.
@@ -61,6 +63,20 @@ Theorem C16_accepts_sound : forall n cap os, accepts_obs n cap os = true ->
 Proof. exact accepts_obs_sound. Qed.
 Print Assumptions C16_accepts_sound.
 
+(* ... and every run of the LTS has its visible trace accepted: the acceptor is exact, so a rejected
+   observed trace (code 1 of the runner) is not a behaviour of the model. *)
+Theorem C16_accepts_complete : forall n cap os s, orun n cap init os s -> accepts_obs n cap os = true.
+Proof. exact accepts_obs_complete. Qed.
+Print Assumptions C16_accepts_complete.
+
+Theorem C16_acceptor_exact : forall n cap os, accepts_obs n cap os = true <-> exists s, orun n cap init os s.
+Proof.
+  intros n cap os. split.
+  - intros H. destruct (accepts_obs_sound n cap os H) as (s & O & _). exists s. exact O.
+  - intros (s & O). eapply accepts_obs_complete. exact O.
+Qed.
+Print Assumptions C16_acceptor_exact.
+
 Theorem C16_accepts_schedules : forall n cap ls, accepts n cap ls = true <-> exists s, run n cap init ls s.
 Proof. exact accepts_iff_run. Qed.
 Print Assumptions C16_accepts_schedules.
@@ -69,15 +85,17 @@ Example C16_nonvacuous :
   (* cancel while resolver 2 of 3 is blocked: the call returns the context error, the rest finishes later *)
   accepts_obs 3 2 [OCall; OOpenVars true; OOpen true; ODone; ORet RetCtx; OOpen false; OOpen true; OQuiet] = true /\
   (* a full response cannot be returned while a gate is closed *)
-  accepts_obs 3 2 [OCall; OOpenVars true; OOpen true; ODone; ORet (RetResp (RespFull [true; true; true]))] = false /\
+  accepts_obs 3 2 [OCall; OOpenVars true; OOpen true; ODone; ORet (RetResp (RespFull [true; true; true] []))] = false /\
   (* completion first: the full response; a later cancel changes nothing *)
-  accepts_obs 2 2 [OCall; OOpenVars true; OOpen true; OOpen false; ORet (RetResp (RespFull [true; false])); ODone; OQuiet] = true /\
+  accepts_obs 2 2 [OCall; OOpenVars true; OOpen true; OOpen false; ORet (RetResp (RespFull [true; false] [1])); ODone; OQuiet] = true /\
   (* not the context error without Done *)
   accepts_obs 2 2 [OCall; OOpenVars true; ORet RetCtx] = false /\
   (* racing: both outcomes are possible *)
   accepts_obs 1 2 [OCall; OOpenVars true; OOpen true; ODone; ORet RetCtx] = true /\
-  accepts_obs 1 2 [OCall; OOpenVars true; OOpen true; ODone; ORet (RetResp (RespFull [true]))] = true.
+  accepts_obs 1 2 [OCall; OOpenVars true; OOpen true; ODone; ORet (RetResp (RespFull [true] []))] = true /\
+  (* a normal response with one of its errors missing is not a behaviour *)
+  accepts_obs 2 2 [OCall; OOpenVars true; OOpen false; OOpen false; ORet (RetResp (RespFull [false; false] [0]))] = false.
 Proof.
   split; [vm_compute; reflexivity|]. split; [vm_compute; reflexivity|]. split; [vm_compute; reflexivity|].
-  split; [vm_compute; reflexivity|]. split; vm_compute; reflexivity.
+  split; [vm_compute; reflexivity|]. split; [vm_compute; reflexivity|]. split; vm_compute; reflexivity.
 Qed.
